@@ -41,7 +41,7 @@ def families(tier: str) -> list[dict[str, Any]]:
         ]
     return [
         {"name": "A", "clients": ["c1", "c2", "c3"], "codesets": [[404], [404, 409], [500]], "depths": [0, 1, 2, 3], "maxlen": 4,
-         "canon": True, "layout": PRIMARY_LAYOUT, "maxlen_at": {0: 3}, "split": 2},
+         "canon": True, "layout": PRIMARY_LAYOUT, "maxlen_at": {0: 3, 2: 3}, "split": 2},
         {"name": "B", "clients": ["c1", "c2"], "codesets": [[], [404], [409, 500]], "depths": [0, 1, 2, 3], "maxlen": 3,
          "canon": False, "layout": {d: OTHER[PRIMARY_LAYOUT[d]] for d in range(4)}, "maxlen_at": {}, "split": 1},
     ]
